@@ -456,6 +456,8 @@ def valid_design(rng, i):
                 # the same design once more on a second contig (its own gene, PAM edits, custom and background records): still valid
                 d['extra_contigs'] = {}
                 d['clone_contig'] = 'chr2'
+                for f in d.get('vcfs') or []:       # records the generator wrote for the (former) extra contig chr2 would now land on the twin
+                    f['records'] = [r for r in f['records'] if r.get('contig', d['contig']) == d['contig']]
             return d
     d.pop('bg', None)
     d.pop('mask', None)
